@@ -93,6 +93,29 @@ func bigEq(a, b *big.Int) bool {
 	return a.Cmp(b) == 0
 }
 
+// statedEq compares only what the statement defines for the merge result: balance delta, nonce,
+// storage updates, output transfers.
+func statedEq(a, b refAcc) string {
+	switch {
+	case a.Nonce != b.Nonce:
+		return "nonce"
+	case !bigEq(a.Delta, b.Delta):
+		return "balanceDelta"
+	case !reflect.DeepEqual(a.Transfers, b.Transfers) && !(len(a.Transfers) == 0 && len(b.Transfers) == 0):
+		return "transfers"
+	}
+	if len(a.Storage) != len(b.Storage) {
+		return "storage"
+	}
+	for k, v := range a.Storage {
+		w, ok := b.Storage[k]
+		if !ok || !bytes.Equal(v[0], w[0]) || !bytes.Equal(v[1], w[1]) {
+			return "storage"
+		}
+	}
+	return ""
+}
+
 func refEq(a, b refAcc, strictNil bool) string {
 	switch {
 	case !bytes.Equal(a.Address, b.Address):
@@ -404,7 +427,7 @@ func C20(tier Tier) int {
 			lRef := snapshotAcc(l)
 			l.MergeOutputAccounts(r)
 			want := refMerge(lRef, rSnap)
-			if f := refEq(snapshotAcc(l), want, false); f != "" {
+			if f := statedEq(snapshotAcc(l), want); f != "" {
 				e.Fail(P, "merge", "result:"+f, fmt.Sprintf("merge of %+v into %+v: field %s differs from the reference merge", specs[j], specs[i], f), "case", fmt.Sprintf("%+v <- %+v", specs[i], specs[j]))
 			}
 			if f := refEq(snapshotAcc(r), rSnap, true); f != "" {
@@ -430,7 +453,7 @@ func C20(tier Tier) int {
 					e.Fail(P, "merge", "merged-in-mutated-by-later-merge:"+f, "a twice merged-in account changed", "case", fmt.Sprintf("%+v", t))
 				}
 				want3 := refMerge(refMerge(refMerge(snapshotAcc(buildAcc(specs[i])), r2Snap), cSnap), cSnap)
-				if f := refEq(snapshotAcc(l2), want3, false); f != "" {
+				if f := statedEq(snapshotAcc(l2), want3); f != "" {
 					e.Fail(P, "merge", "chain-result:"+f, fmt.Sprintf("chain merge result differs from the reference in field %s", f), "case", fmt.Sprintf("%+v <- %+v <- %+v", specs[i], specs[j], t))
 				}
 				e.Case("merge3")
